@@ -36,7 +36,7 @@ fn check_value(sig: &str, got: f64, f: &v1::Function, state: &v1::State, regime:
             abs += num::Signed::abs(&tq);
         }
         let deg = raw.iter().map(|(k, _)| k.len()).max().unwrap_or(0);
-        let tol = eval_tol(raw.len(), deg, &abs);
+        let tol = eval_tol(raw.len(), deg, &abs) + underflow_allowance(&raw, &|id| state.entries.get(id).copied().unwrap_or(0.0));
         if !within(got, &exact, tol) {
             return fail(
                 format!("C01/{sig}/value-outside-rounding-bound"),
